@@ -161,11 +161,15 @@ TempCast(a, u) ==
   IF Plain(a) THEN Val(RMul(a.si, Scale(u)), Dims(u), u, a.q)
   ELSE IF a.dims # Dims(u) THEN Err
   ELSE IF a.free THEN (IF a.dims = Dim0 THEN Ood ELSE Opt(Val(a.si, a.dims, u, Unknown)))
-  \* both sides are a temperature scale standing alone with power one: the defining affine formulas
-  ELSE IF AloneScale(a.u) /\ AloneScale(u) THEN Val(RSub(AbsK(a), ZeroPoint(u)), a.dims, u, IF a.u = u THEN a.q ELSE Unknown)
-  \* anywhere else (squared, inverted, multiplied with other units): refused, or the degree is an interval --
-  \* the zero point is never added
-  ELSE Opt(Val(a.si, a.dims, u, Unknown))
+  \* a side on which an offset scale does not stand alone with power one (squared, inverted, multiplied with other
+  \* units): refused, or the degree is an interval -- the zero point is never added
+  ELSE IF (HasOffset(a.u) /\ ~AloneScale(a.u)) \/ (HasOffset(u) /\ ~AloneScale(u)) THEN Opt(Val(a.si, a.dims, u, Unknown))
+  \* otherwise every offset scale involved stands alone: the defining affine formulas.  The source is brought to kelvin
+  \* (its zero point added if it is an offset scale), the target's zero point is taken off if it is one; a side without
+  \* an offset scale (K, mK, K ft/m, ...) only contributes its factor
+  ELSE LET k == IF HasOffset(a.u) THEN AbsK(a) ELSE a.si
+           si2 == IF HasOffset(u) THEN RSub(k, ZeroPoint(u)) ELSE k IN
+       Val(si2, a.dims, u, IF a.u = u THEN a.q ELSE Unknown)
 Cast0(a, u) ==      \* a to u
   IF Temperature /\ (Off(a) \/ HasOffset(u)) THEN TempCast(a, u)
   ELSE IF a.free THEN (IF HasOffset(u) \/ a.dims = Dim0 THEN Ood ELSE IF a.dims # Dims(u) THEN Err ELSE Val(a.si, a.dims, u, Unknown))
